@@ -24,3 +24,8 @@ Definition run_pivot (c : table * (list colname * colname * colname * agg)) : J 
 (* xyz only (float y values: the label column of unpivot would hold the float itself) *)
 Definition run_pivot_only (c : table * (list colname * colname * colname * agg)) : J :=
   let '(t, (x, y, z, a)) := c in JL [JTs (pivot x y z a t)].
+(* xyz and unpivot(x, {y: ycols}, z): only the listed label columns, in the listed order *)
+Definition run_pivot_sub (c : table * (list colname * colname * colname * agg) * list colname) : J :=
+  let '(t, (x, y, z, a), ys) := c in
+  let p := pivot x y z a t in
+  JL [JTs p; JTs (unpivot x y z (map (fun c => (c, getcol p c)) (x ++ ys)))].
